@@ -34,6 +34,7 @@ type Program struct {
 	ContractLines []ContractLine
 	TypesByName   map[string]types.Type // "ice.Agent" -> named type
 	PkgByName     map[string]*types.Package
+	PkgsByName    map[string][]*types.Package
 }
 
 type ContractLine struct {
@@ -73,12 +74,13 @@ func loadProgram(repo string, extraSpecFiles []string) (*Program, error) {
 	prog.Build()
 	P := &Program{Fset: prog.Fset, Pkgs: pkgs, SSA: prog, SSAPkgs: ssapkgs,
 		Funcs: map[string]*ssa.Function{}, RepoPkgs: map[string]bool{},
-		TypesByName: map[string]types.Type{}, PkgByName: map[string]*types.Package{}}
+		TypesByName: map[string]types.Type{}, PkgByName: map[string]*types.Package{}, PkgsByName: map[string][]*types.Package{}}
 	for _, p := range pkgs {
 		P.RepoPkgs[p.PkgPath] = true
 	}
 	packages.Visit(pkgs, nil, func(p *packages.Package) {
 		if p.Types != nil {
+			P.PkgsByName[p.Types.Name()] = append(P.PkgsByName[p.Types.Name()], p.Types)
 			if _, dup := P.PkgByName[p.Types.Name()]; !dup || P.RepoPkgs[p.PkgPath] {
 				P.PkgByName[p.Types.Name()] = p.Types
 			}
@@ -152,7 +154,26 @@ func (P *Program) collectContractLines(pkg, fname string, f *ast.File) {
 }
 
 func (P *Program) isRepoFunc(fn *ssa.Function) bool {
-	return fn != nil && fn.Pkg != nil && P.RepoPkgs[fn.Pkg.Pkg.Path()]
+	if fn == nil {
+		return false
+	}
+	if fn.Pkg != nil {
+		return P.RepoPkgs[fn.Pkg.Pkg.Path()]
+	}
+	// synthetic wrappers (promoted methods, bound methods) have no package: use the object's
+	if o := fn.Object(); o != nil && o.Pkg() != nil {
+		return P.RepoPkgs[o.Pkg().Path()]
+	}
+	if fn.Signature.Recv() != nil {
+		t := fn.Signature.Recv().Type()
+		if pt, ok := t.Underlying().(*types.Pointer); ok {
+			t = pt.Elem()
+		}
+		if n, ok := types.Unalias(t).(*types.Named); ok && n.Obj().Pkg() != nil {
+			return P.RepoPkgs[n.Obj().Pkg().Path()]
+		}
+	}
+	return false
 }
 
 // funcKey is the contract key of a function.
@@ -165,4 +186,22 @@ func funcKey(fn *ssa.Function) string {
 		return o.Pkg().Name() + "." + fn.RelString(o.Pkg())
 	}
 	return fn.String()
+}
+
+// lookupMember finds pkgName.member in any loaded package of that name
+// (repository packages first).
+func (P *Program) lookupMember(pkgName, member string) (types.Object, *types.Package) {
+	var second types.Object
+	var secondP *types.Package
+	for _, p := range P.PkgsByName[pkgName] {
+		if o := p.Scope().Lookup(member); o != nil {
+			if P.RepoPkgs[p.Path()] {
+				return o, p
+			}
+			if second == nil {
+				second, secondP = o, p
+			}
+		}
+	}
+	return second, secondP
 }
